@@ -613,6 +613,16 @@ func (c *EvalCtx) call(n *Node) Val {
 			specErr(n, "identifierize_of: string expected")
 		}
 		return atom(pureAtomName("(*Caser).Identifierize", []string{t.String()}))
+	case "call_failed":
+		nm, _ := arg(0).(Text).concrete()
+		tu, ok := c.st.Ghost["callret:"+nm].(Tuple)
+		if !ok || len(tu) == 0 {
+			return tFalse
+		}
+		if iv, ok := tu[len(tu)-1].(Iface); ok {
+			return mkBool(iv.Dyn != nil)
+		}
+		return tFalse
 	case "call_result":
 		nm, _ := arg(0).(Text).concrete()
 		k, _ := c.evalTerm(n.Kids[1]).intVal()
@@ -718,6 +728,75 @@ func (c *EvalCtx) call(n *Node) Val {
 		fnm, _ := arg(1).(Text).concrete()
 		_, ok := c.st.Ghost[fmt.Sprintf("json:%d:%s", k, fnm)]
 		return mkBool(ok)
+	case "enum_carrier":
+		// the Go type the emitted `var v <carrier>` decodes into: the primitive's
+		// name, or "interface{}" when the values are wrapped in a struct
+		iv := iface(0)
+		if iv.Dyn == nil {
+			specErr(n, "enum_carrier of nil type")
+		}
+		switch types.TypeString(iv.Dyn, func(p *types.Package) string { return p.Name() }) {
+		case "codegen.PrimitiveType":
+			return c.sel(n, iv.V, "Type")
+		case "*codegen.StructType":
+			return lit("interface{}")
+		}
+		specErr(n, "enum_carrier: unexpected declared type %s", iv.Dyn)
+	case "values_have_type":
+		// every element's dynamic type is the named Go type ("interface{}" admits all)
+		sl, ok := arg(0).(SliceV)
+		if !ok {
+			specErr(n, "values_have_type: slice expected")
+		}
+		want, okc := arg(1).(Text).concrete()
+		if !okc {
+			specErr(n, "values_have_type: concrete carrier expected, got %s", arg(1).(Text))
+		}
+		if want == "interface{}" {
+			return tTrue
+		}
+		for k := 0; k < sl.Len_; k++ {
+			el, _ := c.st.load(sl.Arr.sub(sl.Lo + k)).(Iface)
+			if el.Dyn == nil || el.Dyn.String() != want {
+				return tFalse
+			}
+		}
+		return tTrue
+	case "enum_consistent":
+		// the listed values are of the declared JSON type (or no type is declared)
+		tl, ok1 := arg(0).(SliceV)
+		sl, ok2 := arg(1).(SliceV)
+		if !ok1 || !ok2 {
+			specErr(n, "enum_consistent(typeList, values)")
+		}
+		if tl.Len_ != 1 {
+			return tTrue
+		}
+		decl, _ := c.st.load(tl.Arr.sub(tl.Lo)).(Text).concrete()
+		want := map[string]string{"string": "string", "number": "float64", "integer": "float64", "boolean": "bool"}[decl]
+		for k := 0; k < sl.Len_; k++ {
+			el, _ := c.st.load(sl.Arr.sub(sl.Lo + k)).(Iface)
+			if el.Dyn == nil || el.Dyn.String() != want {
+				// (after integer coercion the values are int)
+				if !(decl == "integer" && el.Dyn != nil && el.Dyn.String() == "int") {
+					return tFalse
+				}
+			}
+		}
+		return tTrue
+	case "count_decls":
+		sl, ok := arg(0).(SliceV)
+		if !ok {
+			return mkInt(0)
+		}
+		want, _ := arg(1).(Text).concrete()
+		cnt := int64(0)
+		for k := 0; k < sl.Len_; k++ {
+			if el, ok := c.st.load(sl.Arr.sub(sl.Lo + k)).(Iface); ok && el.Dyn != nil && types.TypeString(el.Dyn, func(p *types.Package) string { return p.Name() }) == want {
+				cnt++
+			}
+		}
+		return mkInt(cnt)
 	case "fresh_map":
 		m, ok := arg(0).(MapV)
 		if !ok || m.Cell == 0 {
